@@ -1,1 +1,84 @@
-From TL Require Import Base.Base.
+(* C03 - Temporary bindings are undone on every exit, including errors.   *)
+(* Statements only; the proofs are in Proofs/EvalRel.v.                    *)
+From TL Require Import Base.Base Model.Reader Model.Printer Model.Store Model.Eval Model.Init.
+From TL Require Import Proofs.EvalRel.
+Local Open Scope nat_scope.
+
+(* [depth s k] is the number of entries on the binding stack of symbol k,  *)
+(* [mc s k] the number of defmacro forms executed so far on k (a ghost     *)
+(* counter of the model; a defmacro pushes one permanent entry, that is    *)
+(* what set_scope in src/builtin/functions/functions.rs defmacro does).    *)
+
+(* For every text, every state (hence every value of the fault counter     *)
+(* fail_at), every amount of fuel and EVERY outcome - a value, any error,  *)
+(* raised at any point - an evaluation request leaves every binding stack  *)
+(* with the depth it had, up to: the entries of executed defmacros, and    *)
+(* the creation of a global entry by an assignment to an unbound symbol.   *)
+Theorem C03_request_balanced :
+  forall (F : fops) (fuel : nat) (t : text) (s s' : st) (r : res sx),
+    eval_string F fuel t s = (r, s') -> r <> Fuel ->
+    forall k, depth s k <= depth s' k /\
+              depth s' k + mc s k <= Nat.max (depth s k) 1 + mc s' k /\
+              mc s k <= mc s' k.
+Proof.
+  intros F fuel t s s' r H Hr k. destruct (eval_string_inv F fuel t s r s' H Hr) as [I _].
+  pose proof (I k) as X. unfold cnt in X; simpl in X. lia.
+Qed.
+Print Assumptions C03_request_balanced.
+
+(* In particular: a symbol on which the request executed no defmacro and   *)
+(* which had a binding keeps exactly its depth, whatever the outcome: no   *)
+(* temporary binding of let, let*, a call, dolist or dotimes survives.     *)
+Theorem C03_no_stale_binding :
+  forall (F : fops) (fuel : nat) (t : text) (s s' : st) (r : res sx) (k : key),
+    eval_string F fuel t s = (r, s') -> r <> Fuel ->
+    mc s' k = mc s k ->
+    (1 <= depth s k -> depth s' k = depth s k) /\
+    (depth s k = 0 -> depth s' k <= 1).
+Proof.
+  intros F fuel t s s' r k H Hr Hm.
+  destruct (C03_request_balanced F fuel t s s' r H Hr k) as (A & B & C). lia.
+Qed.
+Print Assumptions C03_no_stale_binding.
+
+(* The same for every construct separately: every task of the interpreter  *)
+(* (evaluation of a form, a call, a loop, a trampoline iteration, a macro  *)
+(* expansion) is balanced, for every outcome.                              *)
+Theorem C03_every_form_balanced :
+  forall (F : fops) (fuel : nat) (x : sx) (s s' : st) (r : res sx),
+    run F fuel (TEval x) s = (r, s') -> r <> Fuel -> Inv s s'.
+Proof. intros F fuel x s s' r H Hr. apply (run_inv F fuel (TEval x) s r s' H Hr I). Qed.
+Print Assumptions C03_every_form_balanced.
+
+Theorem C03_file_balanced :
+  forall (F : fops) (fuel : nat) (n : text) (s s' : st) (r : res sx),
+    eval_file F fuel n s = (r, s') -> r <> Fuel -> Inv s s'.
+Proof. intros F fuel n s s' r H Hr. apply (eval_file_inv F fuel n s r s' H Hr). Qed.
+Print Assumptions C03_file_balanced.
+
+(* the statements are not vacuous: an error that crosses a function call,  *)
+(* a let and a dolist, on the initial context                               *)
+Definition F0 : fops :=
+  {| f_add := fun _ _ => 0%Z; f_sub := fun _ _ => 0%Z; f_mul := fun _ _ => 0%Z;
+     f_div := fun _ _ => 0%Z; f_rem := fun _ _ => 0%Z; f_pow := fun _ _ => 0%Z;
+     f_max := fun _ _ => 0%Z; f_min := fun _ _ => 0%Z; f_of_int := fun z => z;
+     f_to_int := fun z => z; f_round := fun z => z; f_trunc := fun z => z;
+     f_lt := Z.ltb; f_le := Z.leb; f_eq := Z.eqb; f_is_finite := fun _ => true;
+     f_to_dec := fun _ => []; f_of_dec := fun _ => None |}.
+
+Definition prog1 := s2t "(defun f (a) (let ((b 1)) (dolist (c '(1 2)) (nofn))))".
+Definition prog2 := s2t "(setq a 7) (f 1)".
+Example C03_error_crosses_binders :
+  let s0 := init_state [] None in
+  let '(_, s1) := eval_string F0 50 prog1 s0 in
+  let '(r, s2) := eval_string F0 50 prog2 s1 in
+  r = Err EType /\
+  var_items s2 (s2t "a") = [Int 7] /\ var_items s2 (s2t "b") = [] /\ var_items s2 (s2t "c") = [].
+Proof. vm_compute. repeat split. Qed.
+
+Check C03_request_balanced :
+  forall (F : fops) (fuel : nat) (t : text) (s s' : st) (r : res sx),
+    eval_string F fuel t s = (r, s') -> r <> Fuel ->
+    forall k, depth s k <= depth s' k /\
+              depth s' k + mc s k <= Nat.max (depth s k) 1 + mc s' k /\
+              mc s k <= mc s' k.
